@@ -459,7 +459,9 @@ def gen_units():
            proof_epilogue=""),
         # C04/C12: the user's `let` name if there is one, else the generated __r{i}
         fn("branch_result_name", "r", requires=["branch_index < self.branch_pats@.len()"],
-           ensures=["r.name() =~= match self.branch_pats@[branch_index as int] { Some(p) => p.ident.name(), None => construct_result_name_spec(branch_index) }"],
+           ensures=["r.name() =~= match self.branch_pats@[branch_index as int] { Some(p) => p.ident.name(), None => construct_result_name_spec(branch_index) }",
+                    # C12: it is the user's OWN identifier (same token, same hygiene), not a respelling of it
+                    "self.branch_pats@[branch_index as int] is Some ==> r == (self.branch_pats@[branch_index as int]->0).ident"],
            closures={"0": {"params": ["&PatIdent"], "ret": "(r: Ident)", "ensures": ["r == pat.ident"]},
                      "1": {"params": [], "ret": "(r: Ident)", "ensures": ["r.name() =~= construct_result_name_spec(branch_index)"]}}),
         fn("branch_result_pat", "r", requires=["branch_index < self.branch_pats@.len()"],
@@ -1120,7 +1122,9 @@ OBLIGATIONS = {
     "C09": [("gen", "JoinOutput::expand_process_expr"), ("steps", "JoinOutput::generate_step_tail"), ("top", "JoinOutput::to_tokens"), ("step", "JoinOutput::generate_step"), ("step", "lemma_apos_step"), ("step", "lemma_apos_ends"), ("gen", "JoinOutput::generate_step_branch")],
     # the steps of every kind sit in a plain block of the scope the macro is called in (no closure / thread / box of
     # the macro's own between the caller's locals and the branch expressions)
-    "C19": [("top", "JoinOutput::to_tokens")],
+    # + an operand is MOVED into its documented call (no `&operand`, no clone: the emitters print the operand as it stands)
+    "C19": [("top", "JoinOutput::to_tokens"), ("core", "ProcessExpr::to_tokens"), ("core", "ErrExpr::to_tokens"), ("core", "InitialExpr::to_tokens"),
+            ("gen", "JoinOutput::expand_process_expr")],
     "C08": [("gen", "JoinOutput::generate_step_branch"), ("sep", "is_block_expr"), ("steps", "JoinOutput::generate_thread_builders_and_spawn_joiners"), ("steps", "JoinOutput::generate_step_tail"), ("steps", "lemma_concat_all"),
             ("core", "construct_thread_builder_name"), ("core", "construct_thread_builder_fn_name")],
     "C18": [("gen", "JoinOutput::split_branch_steps"), ("steps", "JoinOutput::generate_steps"), ("steps", "JoinOutput::generate_thread_builders_and_spawn_joiners"), ("steps", "JoinOutput::generate_step_tail")],
